@@ -226,7 +226,7 @@ func drawWorkload(t *rapid.T) *kit.Case {
 }
 
 func TestWorkloads(t *testing.T) {
-	kit.Rapid(t, "workloads", 600, 24000, func(t *rapid.T) {
+	kit.Rapid(t, "workloads", 1500, 24000, func(t *rapid.T) {
 		c := drawWorkload(t)
 		maxInFlight = 0
 		if kit.Check(t, c) {
